@@ -13,7 +13,7 @@ import ast
 from ..core import rule, AnalysisError
 from ..engine.facts import dotted, const, src, walk_func
 from ..engine import pattern as P
-from .common import calls, pn, access_paths
+from .common import calls, pn, access_paths, assigned_from, canon
 from . import c18  # precedence (coding comment > input_encoding > utf-8) is registered for C20 there
 
 # construct -> (parsetree class, expression(s) the scanned code must include)
@@ -32,11 +32,46 @@ ALT = {"node.code.code": ["node.code.code", "node.text", "node.expression"], "no
        "node.expression": ["node.expression", "node.code.code"]}
 
 
+# ways of splitting the configured tag string that never yield an empty tag (an empty tag is a prefix of every comment)
+NONEMPTY_TAGS = ["$tags = list(filter(None, re.split($rx, self.config['comment-tags'])))", "$tags = [$t for $t in re.split($rx, self.config['comment-tags']) if $t]",
+                 "$tags = self.config['comment-tags'].split()", "$tags = list(filter(None, self.config['comment-tags'].split($_)))"]
+
+
+def _names(fn):
+    """the locals of extract_nodes by role -> canonical name (node, code, child_nodes,
+    translator_comments, in_translator_comments, used_translator_comments, input_encoding, comment_tags)"""
+    m = {}
+    loops = [n for n in walk_func(fn) if isinstance(n, ast.For) and src(n.iter) == pn(fn, 1) and isinstance(n.target, ast.Name)]
+    if loops:
+        m[loops[0].target.id] = "node"
+    nodev = loops[0].target.id if loops else "node"
+
+    def first(pat, var):
+        for _n, env in P.find(fn, pat):
+            x = env[var][1]
+            if isinstance(x, ast.Name):
+                return x.id
+        return None
+    for role, pat, var in (("code", "BytesIO(b'\\n' + $c)", "c"), ("code", "StringIO('\\n' + $c)", "c"), ("child_nodes", "if $k:\n    yield from self.extract_nodes($k)", "k"),
+                           ("translator_comments", "$t[-1][0] < %s.lineno - 1" % nodev, "t"), ("used_translator_comments", "if $u:\n    $t = []", "u"),
+                           ("input_encoding", "$c.encode($e, 'backslashreplace')", "e"), ("comment_tags", "for $x in $tags:\n    if $v.startswith($x):\n        ...", "tags"),
+                           ("comment_tag", "for $x in $tags:\n    if $v.startswith($x):\n        ...", "x")):
+        v = first(pat, var)
+        if v is not None and v not in m:
+            m[v] = role
+    # the collection flag: set True where a tagged comment starts, tested together with blank Text
+    for _n, env in P.find(fn, "if $v.startswith($x):\n    $f = True\n    ..."):
+        if isinstance(env["f"][1], ast.Name):
+            m.setdefault(env["f"][1].id, "in_translator_comments")
+    return m
+
+
 def _branches(fn):
     """(class name(s), body) of the isinstance chain in extract_nodes"""
     out = []
+    nodev = {v: k for k, v in _names(fn).items()}.get("node", "node")
     for n in ast.walk(fn):
-        if isinstance(n, ast.If) and isinstance(n.test, ast.Call) and dotted(n.test.func) == "isinstance" and src(n.test.args[0]) == "node":
+        if isinstance(n, ast.If) and isinstance(n.test, ast.Call) and dotted(n.test.func) == "isinstance" and src(n.test.args[0]) == nodev:
             t = n.test.args[1]
             names = [dotted(x).split(".")[-1] for x in (t.elts if isinstance(t, ast.Tuple) else [t])]
             out.append((names, n))
@@ -49,6 +84,8 @@ def dispatch_exhaustive(ctx):
     db = ctx.db
     fn = db.func("ext.extract.MessageExtractor.extract_nodes")
     br = _branches(fn)
+    nm_ = _names(fn)
+    codev = {v: k for k, v in nm_.items()}.get("code", "code")
     by = {}
     for names, n in br:
         for nm in names:
@@ -64,7 +101,7 @@ def dispatch_exhaustive(ctx):
         if n is None:
             ctx.violation("dispatch:ext.extract#no-branch:" + cls, db.where(fn), "extract_nodes has no branch for %s: gettext calls inside it are never reported" % cls)
             continue
-        body_t = " ".join(src(s) for s in n.body)
+        body_t = canon(" ".join(src(s) for s in n.body), nm_)
         for f in fields:
             ok = any(a in body_t for a in ALT[f])
             key = "dispatch:ext.extract#%s:%s" % (cls, f.replace("node.", ""))
@@ -77,7 +114,7 @@ def dispatch_exhaustive(ctx):
     for cls in ("Text", "TextTag"):
         ctx.check(cls not in by, "silent:" + cls, db.where(fn), "extract_nodes has a code path for %s: plain text would be scanned for gettext calls" % cls, "no code path (falls to `continue`)")
     cm = by.get("Comment")
-    ctx.check(cm is not None and "code" not in {t.id for s in cm.body for x in ast.walk(s) if isinstance(x, ast.Assign) for t in x.targets if isinstance(t, ast.Name)}, "silent:Comment", db.where(cm) if cm is not None else db.where(fn), "## comments are scanned as code", "comments only feed translator comments")
+    ctx.check(cm is not None and codev not in {t.id for s in cm.body for x in ast.walk(s) if isinstance(x, ast.Assign) for t in x.targets if isinstance(t, ast.Name)}, "silent:Comment", db.where(cm) if cm is not None else db.where(fn), "## comments are scanned as code", "comments only feed translator comments")
     # the chain ends in `else: continue`
     last = br[-1][1] if br else None
     chain_end = None
@@ -85,12 +122,12 @@ def dispatch_exhaustive(ctx):
         cur = n
         while len(cur.orelse) == 1 and isinstance(cur.orelse[0], ast.If):
             cur = cur.orelse[0]
-        if cur.orelse and any(isinstance(x, ast.Continue) for x in cur.orelse) and not any(isinstance(x, ast.Assign) and src(x.targets[0]) == "code" for x in cur.orelse):
+        if cur.orelse and any(isinstance(x, ast.Continue) for x in cur.orelse) and not any(isinstance(x, ast.Assign) and src(x.targets[0]) == codev for x in cur.orelse):
             chain_end = cur
     ctx.check(chain_end is not None, "else-continue", db.where(fn), "unknown node kinds are not skipped", "anything else is skipped")
     # ControlLine end lines carry no code
     cl = by.get("ControlLine")
-    ctx.check(cl is not None and "node.isend" in src(cl), "control-end-skipped", db.where(cl) if cl is not None else db.where(fn), "`% end...` lines are scanned", "end lines skipped")
+    ctx.check(cl is not None and "node.isend" in canon(src(cl), nm_), "control-end-skipped", db.where(cl) if cl is not None else db.where(fn), "`% end...` lines are scanned", "end lines skipped")
 
 
 @rule("C20.descent", min_instances=5)
@@ -108,7 +145,7 @@ def descent(ctx):
         n = by.get(cls)
         ok = False
         if n is not None:
-            t = " ".join(src(s) for s in n.body)
+            t = canon(" ".join(src(s) for s in n.body), _names(fn))
             ok = "child_nodes = node.nodes" in t or "self.extract_nodes(node.nodes)" in t
         key = "descent:ext.extract#" + cls
         if ok:
@@ -118,8 +155,8 @@ def descent(ctx):
     rec = [c for c in calls(fn, "self.extract_nodes")]
     ctx.check(bool(rec), "recursion", db.where(fn), "extract_nodes never recurses", "recurses into child nodes")
     pf = db.func("ext.extract.MessageExtractor.process_file")
-    t = src(pf)
-    ctx.check("lexer.Lexer(" in t and "input_encoding=self.config['encoding']" in t and "template_node.get_children()" in t, "entry", db.where(pf), "process_file does not lex the whole file with the configured encoding", "lexes the file and scans all top-level nodes")
+    ok = P.has(pf, "$t = lexer.Lexer(%s.read(), input_encoding=self.config['encoding']).parse()\nyield from self.extract_nodes($t.get_children())" % pn(pf, 1))
+    ctx.check(ok, "entry", db.where(pf), "process_file does not lex the whole file with the configured encoding", "lexes the file and scans all top-level nodes")
 
 
 @rule("C20.offset-algebra", min_instances=4)
@@ -127,28 +164,33 @@ def offset_algebra(ctx):
     """the scanned code is prefixed with one newline and the line handed to the Python extractor is node.lineno - 1; Babel's path reports code_lineno + (lineno - 1)"""
     db = ctx.db
     fn = db.func("ext.extract.MessageExtractor.extract_nodes")
+    nm_ = _names(fn)
+    inv = {v: k for k, v in nm_.items()}
     pre = [c for c in walk_func(fn) if isinstance(c, ast.Call) and dotted(c.func) in ("BytesIO", "StringIO")]
     ctx.require(len(pre) >= 2, "prefix sites not found")
     npre = set()
     for c in pre:
         a = c.args[0]
-        ok = isinstance(a, ast.BinOp) and isinstance(a.op, ast.Add) and const(a.left) in ("\n", b"\n") and src(a.right) == "code"
+        ok = isinstance(a, ast.BinOp) and isinstance(a.op, ast.Add) and const(a.left) in ("\n", b"\n") and src(a.right) == inv.get("code")
         npre.add(const(a.left).count("\n" if isinstance(const(a.left), str) else b"\n") if ok else -1)
         ctx.check(ok, "prefix:" + dotted(c.func), db.where(c), "code is wrapped as %s" % src(a), "one newline prepended")
     pp = [c for c in calls(fn, "self.process_python")]
     ctx.require(pp, "process_python call not found")
-    a = src(pp[0].args[1]).replace(" ", "")
+    a = canon(src(pp[0].args[1]), nm_).replace(" ", "")
     want = "node.lineno-%d" % (list(npre)[0] if len(npre) == 1 else 1)
     ctx.check(a == want, "compensation", db.where(pp[0]), "the Python extractor is given line `%s` although %s newline(s) were prepended (expected %s): every message is reported on a neighbouring line" % (a, npre, want), "%s compensates the prepended newline" % a)
     bp = db.func("ext.babelplugin.BabelMakoExtractor.process_python")
     y = [n for n in walk_func(bp) if isinstance(n, ast.Yield)]
     first = src(y[0].value.elts[0]).replace(" ", "") if y and isinstance(y[0].value, ast.Tuple) else None
-    ctx.check(first == "code_lineno+(lineno-1)", "babel.lineno", db.where(bp), "Babel path reports line `%s`, expected code_lineno + (lineno - 1)" % first, "code_lineno + (lineno - 1)")
-    ctx.check(y and len(y[0].value.elts) == 4 and src(y[0].value.elts[1]) == "funcname" and src(y[0].value.elts[2]) == "messages", "babel.tuple", db.where(bp), "Babel path does not yield (lineno, funcname, messages, comments)", "(lineno, funcname, messages, comments)")
-    ctx.check("translator_strings + python_translator_comments" in src(bp), "babel.comments", db.where(bp), "translator comments are not attached", "template translator comments + python ones")
-    t = src(fn)
-    ctx.check("translator_comments[-1][0] < node.lineno - 1" in t and "translator_comments = []" in t, "comment-adjacency", db.where(fn), "translator comments are attached regardless of distance", "comments only when they immediately precede the construct")
-    ctx.check("code.encode(input_encoding, 'backslashreplace')" in t, "encoding", db.where(fn), "code is not encoded with the configured input encoding", "encoded with input_encoding")
+    yl = None
+    for _n, env_ in P.find(bp, "for ($l, $f, $m, $c) in extract_python(...):\n    yield ($cl + ($l - 1), $f, $m, $tc)"):
+        yl = env_
+    ctx.check(yl is not None and src(yl["cl"][1]) == pn(bp, 2), "babel.lineno", db.where(bp), "Babel path reports line `%s`, expected code_lineno + (lineno - 1)" % first, "code_lineno + (lineno - 1)")
+    ctx.check(y and len(y[0].value.elts) == 4 and yl is not None, "babel.tuple", db.where(bp), "Babel path does not yield (lineno, funcname, messages, comments)", "(lineno, funcname, messages, comments)")
+    ctx.check(yl is not None and P.matches(yl["tc"][1], "%s + %s" % (pn(bp, 3), src(yl["c"][1]))), "babel.comments", db.where(bp), "translator comments are not attached", "template translator comments + python ones")
+    t = canon(src(fn), nm_)
+    ctx.check(P.has(fn, "if $t and $t[-1][0] < %s.lineno - 1:\n    $t = []" % inv.get("node", "node")), "comment-adjacency", db.where(fn), "translator comments are attached regardless of distance", "comments only when they immediately precede the construct")
+    ctx.check(P.has(fn, "$e = self.config['encoding'] or 'ascii'\n...") and any(P.has(fn, "$c = $c.encode(%s, 'backslashreplace')" % e_) for e_ in assigned_from(fn, "self.config['encoding'] or 'ascii'")), "encoding", db.where(fn), "code is not encoded with the configured input encoding", "encoded with input_encoding")
 
 
 @rule("C20.sub-span", min_instances=1)
@@ -175,14 +217,16 @@ def comment_window(ctx):
     db = ctx.db
     from ..engine import cfg as cfgmod
     fn = db.func("ext.extract.MessageExtractor.extract_nodes")
-    loops = [n for n in walk_func(fn) if isinstance(n, ast.For) and src(n.iter) == "nodes"]
+    nm_ = _names(fn)
+    inv = {v: k for k, v in nm_.items()}
+    loops = [n for n in walk_func(fn) if isinstance(n, ast.For) and src(n.iter) == pn(fn, 1)]
     ctx.require(loops, "extract_nodes: scan loop not found")
     lp = loops[0]
     wh = ast.While(test=ast.Constant(value=True), body=lp.body, orelse=[])
     ast.fix_missing_locations(wh)
     g = cfgmod.CFG([wh], "extract-loop")
     head = [n for n in g.nodes if n.stmt is wh][0]
-    resets = [n for n in g.nodes if isinstance(n.stmt, ast.Assign) and src(n.stmt.targets[0]) == "in_translator_comments" and const(n.stmt.value) is False]
+    resets = [n for n in g.nodes if isinstance(n.stmt, ast.Assign) and src(n.stmt.targets[0]) == inv.get("in_translator_comments") and const(n.stmt.value) is False]
     # entry points of the dispatch that handles everything except comments / blank text
     chain = [s for s in lp.body if isinstance(s, ast.If) and isinstance(s.test, ast.Call) and dotted(s.test.func) == "isinstance" and "Comment" not in src(s.test)]
     ctx.require(chain, "extract_nodes: node dispatch not found")
@@ -196,8 +240,8 @@ def comment_window(ctx):
     else:
         ctx.ok("window:ext.extract#reset-on-every-path", db.where(lp), "every non-comment node ends comment collection")
     cm = [s for s in lp.body if isinstance(s, ast.If) and "parsetree.Comment" in src(s.test)]
-    ctx.check(bool(cm) and "startswith(comment_tag)" in src(cm[0]) and "in_translator_comments = True" in src(cm[0]), "window.starts-with-tag", db.where(cm[0]) if cm else db.where(lp), "comment collection does not start at a comment beginning with a configured tag", "starts at a tagged ## comment")
-    ctx.check("used_translator_comments" in src(lp) and "translator_comments = []" in src(lp), "window.consumed", db.where(lp), "comments are not cleared once attached", "cleared after use")
+    ctx.check(bool(cm) and "startswith(comment_tag)" in canon(src(cm[0]), nm_) and "in_translator_comments = True" in canon(src(cm[0]), nm_) and any(P.has(fn, p_) for p_ in NONEMPTY_TAGS), "window.starts-with-tag", db.where(cm[0]) if cm else db.where(lp), "comment collection does not start at a comment beginning with a configured tag", "starts at a tagged ## comment")
+    ctx.check(P.has(lp, "for $m in self.process_python(...):\n    yield $m\n    $u = True\nif $u:\n    $t = []"), "window.consumed", db.where(lp), "comments are not cleared once attached", "cleared after use")
 
 
 def _branch_of(path_nodes, lp):
